@@ -162,40 +162,10 @@ func (A *audit) minLen(xt *Term, fs factSet) int64 {
 			}
 		}
 	}
-	lx := tLen(xt).String()
+	up(fs.lenLowerBound(xt, A.foldInt))
 	for _, f := range fs {
 		p := f.Pred
 		switch {
-		case p.Op == "binop" && len(p.Args) == 2:
-			a, b := p.Args[0], p.Args[1]
-			ka, aok := termConstInt(a)
-			kb, bok := termConstInt(b)
-			switch p.S {
-			case "==":
-				if a.String() == lx && bok && f.Val {
-					up(kb)
-				}
-				if b.String() == lx && aok && f.Val {
-					up(ka)
-				}
-				if !f.Val && ((a.String() == lx && bok && kb == 0) || (b.String() == lx && aok && ka == 0)) {
-					up(1)
-				}
-			case "<":
-				if aok && b.String() == lx && f.Val { // K < len
-					up(ka + 1)
-				}
-				if a.String() == lx && bok && !f.Val { // !(len < K)
-					up(kb)
-				}
-			case "<=":
-				if aok && b.String() == lx && f.Val { // K <= len
-					up(ka)
-				}
-				if a.String() == lx && bok && !f.Val { // !(len <= K)
-					up(kb + 1)
-				}
-			}
 		case p.Op == "call" && p.S == "bytes.HasPrefix" && f.Val && len(p.Args) == 2 && p.Args[0].eq(xt):
 			// prefix must be a constant byte string
 			pt := p.Args[1]
@@ -210,6 +180,22 @@ func (A *audit) minLen(xt *Term, fs factSet) int64 {
 		}
 	}
 	return best
+}
+
+// foldInt: constants, len(nil), len(literal) and len of a constant
+// package-level byte slice.
+func (A *audit) foldInt(t *Term) (int64, bool) { return A.P.foldIntG(t) }
+
+func (P *Prog) foldIntG(t *Term) (int64, bool) {
+	if n, ok := foldInt(t); ok {
+		return n, true
+	}
+	if t.Op == "len" && len(t.Args) == 1 && t.Args[0].Op == "load" && t.Args[0].Args[0].Op == "global" {
+		if b, ok := P.globalBytes(t.Args[0].Args[0].S); ok {
+			return int64(len(b)), true
+		}
+	}
+	return 0, false
 }
 
 // nonNeg: the integer term is provably >= 0.
@@ -272,6 +258,69 @@ func (A *audit) lenTerms(xt *Term, fs factSet) []*Term {
 	return out
 }
 
+// atAllCallers: fn is unexported, has at least one in-scope call site, and
+// check holds at every one of them (m maps parameter index -> argument term
+// in the caller; fs are the facts before the call). Used to discharge an
+// obligation on a parameter with facts the callers have established.
+func (A *audit) atAllCallers(fn *ssa.Function, depth int, check func(caller *ssa.Function, fs factSet, m map[string]*Term, depth int) bool) bool {
+	if depth > 3 || fn.Object() == nil || fn.Object().Exported() || fn.Parent() != nil {
+		return false
+	}
+	n := 0
+	for caller := range A.scope {
+		for _, ci := range callsIn(caller, nil) {
+			if staticCallee(ci) != fn {
+				continue
+			}
+			n++
+			m := map[string]*Term{}
+			for i, a := range ci.Common().Args {
+				m[strconv.Itoa(i)] = A.P.terms.of(a)
+			}
+			if !check(caller, A.P.factsBefore(ci), m, depth+1) {
+				return false
+			}
+		}
+	}
+	// every use of the function must be a direct call (no function value escaping)
+	if refs := fn.Referrers(); refs != nil {
+		for _, r := range *refs {
+			if _, ok := r.(ssa.CallInstruction); !ok {
+				return false
+			}
+		}
+	}
+	return n > 0
+}
+
+// minLenCtx: minLen with the callers' facts as fallback for parameters.
+func (A *audit) minLenCtx(fn *ssa.Function, xt *Term, fs factSet, need int64, depth int) bool {
+	if A.minLen(xt, fs) >= need {
+		return true
+	}
+	if !xt.contains(func(u *Term) bool { return u.Op == "param" }) {
+		return false
+	}
+	return A.atAllCallers(fn, depth, func(caller *ssa.Function, cfs factSet, m map[string]*Term, d int) bool {
+		return A.minLenCtx(caller, xt.subst(m), cfs, need, d)
+	})
+}
+
+// wellformedCtx: ok(mode.Wellformed(xt)) holds here or at every caller.
+func (A *audit) wellformedCtx(fn *ssa.Function, xt *Term, fs factSet, depth int) bool {
+	for _, call := range fs.findOK(func(call *Term) bool { return call.S == "invoke:cbor.DecMode.Wellformed" }) {
+		if len(call.Args) == 2 && call.Args[1].eq(xt) {
+			return true
+		}
+	}
+	if !xt.contains(func(u *Term) bool { return u.Op == "param" }) {
+		return false
+	}
+	return A.atAllCallers(fn, depth, func(caller *ssa.Function, cfs factSet, m map[string]*Term, d int) bool {
+		return A.wellformedCtx(caller, xt.subst(m), cfs, d)
+	})
+}
+
 // loopIndexOver: idx is the index variable of a recognised full-range loop
 // containing instruction at; returns the ranged value.
 func (A *audit) loopIndexOver(idx ssa.Value, at ssa.Instruction) (ssa.Value, bool) {
@@ -292,10 +341,10 @@ func (A *audit) indexSafe(x, idx ssa.Value, at ssa.Instruction) (bool, string) {
 	fs := P.factsBefore(at)
 	xt := P.terms.of(x)
 	if c, ok := constIntOf(idx); ok {
-		if c >= 0 && A.minLen(xt, fs) >= c+1 {
-			return true, fmt.Sprintf("len(%s) >= %d on every path here", xt, c+1)
+		if c >= 0 && A.minLenCtx(at.Parent(), xt, fs, c+1, 0) {
+			return true, fmt.Sprintf("len(%s) >= %d on every path here (facts of this function or of all its callers)", xt, c+1)
 		}
-		if ok, why := A.wellformedHeadException(xt, c, fs); ok {
+		if ok, why := A.wellformedHeadException(at.Parent(), xt, c, fs); ok {
 			return true, why
 		}
 		return false, fmt.Sprintf("constant index %d but no dominating fact gives len(%s) >= %d", c, xt, c+1)
@@ -330,14 +379,8 @@ func (A *audit) indexSafe(x, idx ssa.Value, at ssa.Instruction) (bool, string) {
 // that makes the head that long (frozen exception whose supporting facts are
 // checked here: RFC 8949 3: ai 24/25/26/27 is followed by 1/2/4/8 bytes, and
 // a well-formed item is never truncated).
-func (A *audit) wellformedHeadException(xt *Term, c int64, fs factSet) (bool, string) {
-	okWF := false
-	for _, call := range fs.findOK(func(call *Term) bool { return call.S == "invoke:cbor.DecMode.Wellformed" }) {
-		if len(call.Args) == 2 && call.Args[1].eq(xt) {
-			okWF = true
-		}
-	}
-	if !okWF {
+func (A *audit) wellformedHeadException(fn *ssa.Function, xt *Term, c int64, fs factSet) (bool, string) {
+	if !A.wellformedCtx(fn, xt, fs, 0) {
 		return false, ""
 	}
 	follow := map[int64]int64{24: 1, 25: 2, 26: 4, 27: 8}
